@@ -5,7 +5,9 @@ package session
 import (
 	"bytes"
 	"context"
+	"crypto/ecdsa"
 	"crypto/ed25519"
+	"crypto/elliptic"
 	"crypto/rand"
 	"crypto/tls"
 	"crypto/x509"
@@ -408,7 +410,7 @@ func BuildMsg(m int, cfg Cfg, failing bool) (*mail.Msg, error) {
 	switch rf {
 	case "fail0":
 		msg.SetBodyWriter(mail.TypeTextPlain, func(w io.Writer) (int64, error) { return 0, errProducer })
-	case "failMid":
+	case "failMid", "failMidSigned":
 		msg.SetBodyWriter(mail.TypeTextPlain, func(w io.Writer) (int64, error) {
 			n, _ := io.WriteString(w, bodyHead)
 			return int64(n), errProducer
@@ -433,6 +435,15 @@ func BuildMsg(m int, cfg Cfg, failing bool) (*mail.Msg, error) {
 			n, err := io.WriteString(w, bodyHead+bodyTail)
 			return int64(n), err
 		})
+	}
+	if rf == "failMidSigned" { // a message that IS signed (the signing render and the wire render both call the producers)
+		key, cert, err := signingMaterial()
+		if err != nil {
+			return nil, err
+		}
+		if err = msg.SignWithKeypair(key, cert, nil); err != nil {
+			return nil, fmt.Errorf("SignWithKeypair: %w", err)
+		}
 	}
 	if rf == "failSign" { // S/MIME signing fails when the message is rendered: WriteTo returns 0 bytes and an error
 		key, cert, err := unsignableMaterial()
@@ -465,6 +476,32 @@ var (
 	unsignCert *x509.Certificate
 	unsignErr  error
 )
+
+var (
+	signOnce sync.Once
+	signKey  *ecdsa.PrivateKey
+	signCert *x509.Certificate
+	signErr  error
+)
+
+// signingMaterial is a self-signed ECDSA key pair for S/MIME signing.
+func signingMaterial() (*ecdsa.PrivateKey, *x509.Certificate, error) {
+	signOnce.Do(func() {
+		signKey, signErr = ecdsa.GenerateKey(elliptic.P256(), rand.Reader)
+		if signErr != nil {
+			return
+		}
+		tpl := &x509.Certificate{SerialNumber: big.NewInt(77), Subject: pkix.Name{CommonName: "verif signer"},
+			NotBefore: time.Now().Add(-time.Hour), NotAfter: time.Now().Add(24 * time.Hour),
+			KeyUsage: x509.KeyUsageDigitalSignature, EmailAddresses: []string{"sender1@from.test"}}
+		var der []byte
+		if der, signErr = x509.CreateCertificate(rand.Reader, tpl, tpl, &signKey.PublicKey, signKey); signErr != nil {
+			return
+		}
+		signCert, signErr = x509.ParseCertificate(der)
+	})
+	return signKey, signCert, signErr
+}
 
 // unsignableMaterial is a key pair SignWithKeypair accepts but the PKCS#7 signer cannot sign with (Ed25519).
 func unsignableMaterial() (ed25519.PrivateKey, *x509.Certificate, error) {
@@ -799,6 +836,7 @@ func (rn *Runner) Run() {
 		}
 	}
 	scfg.Implicit = cfg.Policy == "implicit"
+	scfg.MultiOK = cfg.Variant == "multiok"
 	if cfg.Redial { // the first dial of a redial scenario is fault-free: the script applies from the second connection on
 		scfg.FaultsFromConn = 2
 	}
